@@ -1,7 +1,33 @@
 /-
-  C02 — see AL.Spec.X86 (reference decoder) and AL.Spec.X86Families (quantifier domain).
+  C02 — memory operands encode exactly the written effective address.
+
+  Statement: for every instance d of the family — every entry of the reference table with a
+  memory-capable operand over base x index x scale x displacement x address size —
+      decode (assemble (render d)) ≈ d
+  where ≈ lets the memory operand differ only by an encoding of the SAME address for every register
+  valuation (AL.Spec.X86.sameMem: same width, address size, per-register coefficient, displacement).
+   * `Sweep.c02_sweep`            — the quick family (≈ 108 000 instances x NASM / STRICT SIB handling) on the
+                                    model, by evaluation;
+   * `disp_field_reads_back`      — kernel-checked, for EVERY displacement value: the constant bytes the
+                                    model emits, with any zero padding, read back as that value, and every
+                                    signed 8/32-bit displacement is recovered from its two's complement
+                                    field (the decoder side of "sign-extended displacement as written");
+   * C11 `swap_same_address`, `nobase_scale2_same_address`, `nobase_scale1_same_address` — the NASM rewritings
+                                    keep the address, for every register valuation.
 -/
-import AL.Spec.X86Families
-import AL.Impl.Line
+import AL.Properties.Sweep.C02
+import AL.Spec.X86Lemmas
+import AL.Properties.C11
 namespace AL.Properties.C02
+open AL AL.Impl AL.Spec.X86
+
+/-- **every displacement reads back**: unsigned field value and signed interpretation -/
+theorem disp_field_reads_back :
+    (∀ (c k : Nat), c < 2 ^ 64 → leVal (assembleConst c ++ List.replicate k 0) = c) ∧
+    (∀ d : Int, -128 ≤ d → d < 128 → toSigned 8 (d % 256).toNat = d) ∧
+    (∀ d : Int, -2147483648 ≤ d → d < 2147483648 → toSigned 32 (d % 4294967296).toNat = d) :=
+  ⟨fun c k h => leVal_assembleConst c h k,
+   fun d h1 h2 => toSigned_roundtrip 8 (by decide) d (by simpa using h1) (by simpa using h2),
+   fun d h1 h2 => toSigned_roundtrip 32 (by decide) d (by simpa using h1) (by simpa using h2)⟩
+
 end AL.Properties.C02
